@@ -1404,6 +1404,8 @@ func main() {
 			decisionFunc("driver/netconf/driver.go", "Driver.storeMessage"), decisionFunc("driver/netconf/driver.go", "Driver.getMessage"))
 		fmt.Fprintf(&sw, "(* driver/netconf/rpc.go Driver.sendRPC (the polling goroutine as one effect) *)\nDefinition send_rpc_code : list dstmt :=\n  %s.\n",
 			decisionFunc("driver/netconf/rpc.go", "Driver.sendRPC", "@opaque-go"))
+		fmt.Fprintf(&sw, "(* channel/channel.go Channel.Open *)\nDefinition channel_open_code : list dstmt :=\n  %s.\n",
+			decisionFunc("channel/channel.go", "Channel.Open"))
 		fmt.Fprintf(&sw, "(* channel/channel.go Channel.processOut *)\nDefinition process_out_code : list dstmt :=\n  %s.\n",
 			decisionFunc("channel/channel.go", "Channel.processOut"))
 		fmt.Fprintf(&sw, "(* driver/netconf: buildFilterElem, buildDefaultsElem, buildGetElem, buildGetConfigElem *)\nDefinition nc_filter_elem_code : list dstmt :=\n  %s.\nDefinition nc_defaults_elem_code : list dstmt :=\n  %s.\nDefinition nc_get_elem_code : list dstmt :=\n  %s.\nDefinition nc_get_config_elem_code : list dstmt :=\n  %s.\n",
